@@ -10,6 +10,8 @@ import (
 	"verif/harness/internal/props/c07"
 	"verif/harness/internal/props/c08"
 	"verif/harness/internal/props/c09"
+	"verif/harness/internal/props/c10"
+	"verif/harness/internal/props/c11"
 	"verif/harness/internal/props/c12"
 	"verif/harness/internal/props/c14"
 	"verif/harness/internal/props/c19"
@@ -30,6 +32,8 @@ import (
 )
 
 var drivers = map[string]core.Driver{
+	"C11": c11.Driver{},
+	"C10": c10.Driver{},
 	"C19": c19.Driver{},
 	"C14": c14.Driver{},
 	"C12": c12.Driver{},
